@@ -3,7 +3,9 @@ Reference model of DSDL constant expressions: tree evaluation in exact arithmeti
 precedence/associativity table, a minimal-parenthesis renderer and an independent precedence-climbing parser
 (self-check: parse(render(t)) == t for every tree before it is used).
 
-tree := ["lit", source_text] | ["set", [trees]] | ["un", op, tree] | ["bin", op, tree, tree] | ["attr", tree, name]
+tree := ["lit", source_text] | ["id", name] | ["set", [trees]] | ["un", op, tree] | ["bin", op, tree, tree] | ["attr", tree, name]
+        ["id", name]: an identifier (a constant of the same schema section, or `Type.M.m.NAME`); its value is ENV[name] - the source
+        text of a literal - and the identifier is undefined when ENV has no such name
 value: Fraction | bool | str | frozenset(values)        (Undefined is raised for what the Specification leaves undefined)
 """
 from __future__ import annotations
@@ -61,6 +63,9 @@ def literal_value(src: str):
     assert m and (m.group(1) or m.group(2)), src
     mant = Fraction(int((m.group(1) or "0") + (m.group(2) or "")), 10 ** len(m.group(2) or ""))
     return mant * Fraction(10) ** int(m.group(3) or 0)
+
+
+ENV: dict = {}  # identifier environment of the section being evaluated: name -> literal source text (set by the caller)
 
 
 # ------------------------------------------------------------------------------------------------ evaluation
@@ -196,6 +201,10 @@ def evaluate(t):
     k = t[0]
     if k == "lit":
         return literal_value(t[1])
+    if k == "id":
+        if t[1] not in ENV:
+            raise Undefined("undefined identifier")
+        return literal_value(ENV[t[1]])
     if k == "set":
         return mkset(evaluate(x) for x in t[1])
     if k == "un":
@@ -243,7 +252,7 @@ def value_json(v):
 # ------------------------------------------------------------------------------------------------ rendering
 def level(t) -> int:
     k = t[0]
-    if k in ("lit", "set"):
+    if k in ("lit", "set", "id"):
         return 10
     if k == "un":
         return 2 if t[1] == "!" else 7
@@ -257,7 +266,7 @@ def render(t, style: str = "min", min_level: int = 0) -> str:
     'wide' minimal, double blanks around every token."""
     sp = {"min": " ", "full": " ", "tight": "", "wide": "  "}[style]
     k = t[0]
-    if k == "lit":
+    if k in ("lit", "id"):
         return t[1]
     if k == "set":
         inner = ("," + sp).join(render(x, style, 0) for x in t[1])
@@ -292,7 +301,7 @@ TOKEN = re.compile(
       (?P<real>(?:[0-9](?:_?[0-9])*)?\.[0-9](?:_?[0-9])*(?:[eE][+-]?[0-9](?:_?[0-9])*)?|[0-9](?:_?[0-9])*\.(?:[eE][+-]?[0-9]+)?(?![0-9a-zA-Z_])|[0-9](?:_?[0-9])*[eE][+-]?[0-9](?:_?[0-9])*)
      |(?P<int>0[bB](?:_?[01])+|0[oO](?:_?[0-7])+|0[xX](?:_?[0-9a-fA-F])+|[0-9](?:_?[0-9])*)
      |(?P<str>'[^'\\]*'|"[^"\\]*")
-     |(?P<id>[a-zA-Z_][a-zA-Z0-9_]*)
+     |(?P<id>(?:[a-zA-Z_][a-zA-Z0-9_]*\.)+[0-9]+\.[0-9]+\.[a-zA-Z_][a-zA-Z0-9_]*|[a-zA-Z_][a-zA-Z0-9_]*)
      |(?P<op>\|\||&&|==|!=|<=|>=|\*\*|[<>|^&+\-*/%!.(){},])
     )""",
     re.X,
@@ -399,6 +408,8 @@ class _P:
             return ["lit", v]
         if k == "id" and v in ("true", "false"):
             return ["lit", v]
+        if k == "id":
+            return ["id", v]
         raise SyntaxError("unexpected %r" % v)
 
 
